@@ -96,7 +96,11 @@ def gen_index(i: int, seed: int, tier: str) -> dict[str, Any]:
                                                    # another task of the application holds a management connection to one
                                                    # of the other bus addresses for the whole run (that device still answers
                                                    # broadcasts - its answers belong to the procedure, not to the connection)
-                                                   "held": rng.choice(["a", "b"]) if rng.random() < 0.2 else None},
+                                                   "held": rng.choice(["a", "b"]) if rng.random() < 0.2 else None,
+                                                   # another task of the application looks for a device by a serial number
+                                                   # nobody has, again and again, while the procedure runs (its own broadcast
+                                                   # context on the same XKNX object)
+                                                   "concurrent_bc": rng.random() < 0.2},
             "devices": devs, "ops": []}
 
 
@@ -160,6 +164,18 @@ def run(plan: dict[str, Any]) -> dict[str, Any]:
             except (ManagementConnectionError, TimeoutError):
                 pass
             await asyncio.sleep(0.5)
+        bc_task = None
+        if cfg.get("concurrent_bc"):
+            async def look_for_absent_serial():
+                while True:
+                    try:
+                        await PN.nm_individual_address_serial_number_read(xknx, (0xABCDEF).to_bytes(6, "big"))
+                    except ManagementConnectionError:
+                        pass
+                    await asyncio.sleep(0.05)
+            bc_task = loop.create_task(look_for_absent_serial())
+            R.extra_faults["second_broadcast_context_open_meanwhile"] += 1
+            await asyncio.sleep(0.3)
         try:
             async with asyncio.timeout(120):
                 if proc == "addr_write":
@@ -194,6 +210,9 @@ def run(plan: dict[str, Any]) -> dict[str, Any]:
             out["exc"] = type(exc).__name__
         except TimeoutError:
             out["exc"] = "HANG"
+        if bc_task is not None:
+            bc_task.cancel()
+            await asyncio.gather(bc_task, return_exceptions=True)
         await asyncio.sleep(8.0)
         xknx.task_registry.stop()
 
